@@ -42,6 +42,10 @@ def classify(d):
         return 'sentinel-datagram-not-handled-after-hostile-sequence'
     if code == 81:
         return 'frames-forwarded-that-the-datagram-does-not-contain'
+    if code == 82:
+        return 'stack-grows-with-every-datagram'
+    if code == 83:
+        return 'valid-packet-of-a-long-stream-not-forwarded'
     if code == 80:
         return 'HARNESS'
     return 'exit-%s' % code
@@ -212,7 +216,7 @@ def c19(tier, seed):
                    packets=int(obs.stats.get('tunnel.packets', 0)),
                    rule='the real acf-can-talker main() runs in a child process (its CAN, UDP and raw sockets replaced by socket-pair '
                         'ends, options through its own argp parser) for {TSCF, NTSCF} x {UDP, raw} x {classic, FD} x frames-per-packet '
-                        '{1, 2, 3, 7, max that fits}; %d runs x %d packets per configuration of frames with unique serial numbers over '
+                        '{1, 2, 3, 7, 60/18, the maximum number of full-length frames that fits 1500 bytes, one random count}, every third packet with all frames of maximum length, plus one 600-packet stream per run (sequence numbers wrap); %d runs x %d packets per configuration of frames with unique serial numbers over '
                         'identifier classes (11-bit, 29-bit, 29-bit-flagged id <= 0x7FF, RTR, extremes), BRS/ESI/FDF combinations varying '
                         'within a packet, every length 0..8 / 0..64; each packet: control-format length compared with an independent walk '
                         'of the ACF messages, then handed to the real listener new_packet(); the frames it writes must match the input '
